@@ -252,7 +252,7 @@ func ruleStateActions(c *Ctx, dv *dev) {
 	}
 	for field, fns := range allowed {
 		for _, s := range storesToField(c.P, dv.fields[field]) {
-			if !fns[s.Fn.Name()] || topFunc(s.Fn) != s.Fn {
+			if o := dv.ownerOf(s.Fn); !fns[o.Name()] || (topFunc(s.Fn) != s.Fn && o == topFunc(s.Fn)) {
 				c.Bad("R4.6", "store(Device."+field+")@"+shortFn(s.Fn), c.P.Pos(s.Instr.Pos()), "Device."+field+" is written outside its action functions and NewDevice")
 			}
 		}
@@ -419,8 +419,8 @@ func atLastMapping(dv *dev, p *Path, cur string, want bool) bool {
 func rulePairReset(c *Ctx, dv *dev, at actionTable) {
 	fn := dv.fn["checkDoubleActions"]
 	c.Fn(shortFn(fn))
-	only := map[*ssa.Function]bool{}
-	paths, err := Enumerate(fn, SymConfig{Prog: c.P, MaxDepth: 1, Collapse: true, OnlyInline: only})
+	only := dv.withHelpers(map[*ssa.Function]bool{})
+	paths, err := Enumerate(fn, SymConfig{Prog: c.P, MaxDepth: 2, Collapse: true, OnlyInline: only})
 	if !c.Require(err == nil, "R4.7", "device.checkDoubleActions", fmt.Sprint(err)) {
 		return
 	}
@@ -555,8 +555,8 @@ func rulePairReset(c *Ctx, dv *dev, at actionTable) {
 // action only when no pair was detected; the release path deletes the entry.
 func rulePressProtocol(c *Ctx, dv *dev) {
 	fn := dv.fn["handleKEYEvent"]
-	only := map[*ssa.Function]bool{dv.fn["checkExitSequence"]: true}
-	paths, err := Enumerate(fn, SymConfig{Prog: c.P, MaxDepth: 2, Collapse: true, OnlyInline: only})
+	only := dv.withHelpers(map[*ssa.Function]bool{dv.fn["checkExitSequence"]: true})
+	paths, err := Enumerate(fn, SymConfig{Prog: c.P, MaxDepth: 3, Collapse: true, OnlyInline: only})
 	if !c.Require(err == nil, "R4.7", "device.handleKEYEvent", fmt.Sprint(err)) {
 		return
 	}
